@@ -319,6 +319,9 @@ async fn run(case: Json, tol: Tolerate) -> Outcome {
     let mut closed_window_changes = 0u64;
     for (opi, op) in ops.iter().enumerate() {
         let tag = op.at(0).as_str();
+        if crate::verif_net::trace_on() {
+            eprintln!("[trace] ---- op {} {}", opi, op.to_compact());
+        }
         match tag {
             "ann" => {
                 let s = op.at(1).as_usize() % n_src;
